@@ -245,13 +245,24 @@ def audit(module):
 
 # --------------------------------------------------------------------------- streams
 
-def run_exe(exe, ops_text, timeout=3600, cwd=None, env=None, args=()):
+def run_exe(exe, ops_text, timeout=1800, cwd=None, env=None, args=()):
     e = dict(os.environ)
     if env:
         e.update(env)
-    p = subprocess.run([exe] + list(args), input=ops_text, stdout=subprocess.PIPE,
-                       stderr=subprocess.PIPE, text=True, timeout=timeout, cwd=cwd, env=e)
-    return p.returncode, p.stdout, p.stderr
+    # a harness that never returns is reported to the caller as a failed run (status -9, what it printed
+    # so far, and a note on stderr) instead of an exception that would leave the check without a verdict
+    try:
+        timeout = timeout * max(1.0, os.getloadavg()[0] / (os.cpu_count() or 1))
+    except OSError:
+        pass
+    pr = subprocess.Popen([exe] + list(args), stdin=subprocess.PIPE, stdout=subprocess.PIPE, stderr=subprocess.PIPE, text=True, cwd=cwd, env=e)
+    try:
+        out, err = pr.communicate(ops_text, timeout=timeout)
+        return pr.returncode, out, err
+    except subprocess.TimeoutExpired:
+        pr.kill()
+        out, err = pr.communicate()
+        return -9, out, (err or "") + "\nTIMEOUT: %s did not return within %.0f s (killed)" % (os.path.basename(exe), timeout)
 
 
 def split_oracle(stdout):
@@ -470,7 +481,23 @@ class Ctx:
         the mismatching line) is stored and reported as a broken correspondence; oracle lines
         printed by the harness are property violations on the implementation (with replay)."""
         ops_text = "\n".join(ops_lines) + "\n"
-        rc_i, out_i, err_i = run_exe(harness_exe, ops_text, args=harness_args)
+        # the implementation harness may not come back at all (a changed lock discipline can make the real
+        # code wait for ever): bounded wait, the partial output locates the operation it hangs in
+        hang = False
+        limit = float(os.environ.get("VERIF_HARNESS_TIMEOUT", "600" if not self.thorough else "3600"))
+        try:
+            limit *= max(1.0, os.getloadavg()[0] / (os.cpu_count() or 1))
+        except OSError:
+            pass
+        e_i = dict(os.environ)
+        pr = subprocess.Popen([harness_exe] + list(harness_args), stdin=subprocess.PIPE, stdout=subprocess.PIPE, stderr=subprocess.PIPE, text=True, env=e_i)
+        try:
+            out_i, err_i = pr.communicate(ops_text, timeout=limit)
+            rc_i = pr.returncode
+        except subprocess.TimeoutExpired:
+            pr.kill()
+            out_i, err_i = pr.communicate()
+            rc_i, hang = -9, True
         rc_m, out_m, err_m = run_exe(driver_exe, ops_text, args=driver_args)
         impl, orc = split_oracle(out_i)
         model = [l for l in out_m.split("\n") if l != ""]
@@ -478,7 +505,12 @@ class Ctx:
         st["lines"] += len(ops_lines)
         if rc_m != 0:
             self.broken_obligation("Lean driver %s failed (rc %d): %s" % (os.path.basename(driver_exe), rc_m, err_m[-300:]))
-        if rc_i != 0:
+        if hang:
+            k = len(impl)
+            grp = self._group(ops_lines, min(k, len(ops_lines) - 1), group_start)
+            self.violation("%s:impl-hang" % stream, "implementation harness did not return within %.0f s; it answered %d of %d operations and hangs in the next one" % (limit, k, len(ops_lines)),
+                           {"stream": stream, "ops": grp, "stderr": (err_i or "")[-2000:]})
+        elif rc_i != 0:
             # sanitizer abort / crash of the implementation: bisect to the line
             k = len(impl)
             grp = self._group(ops_lines, min(k, len(ops_lines) - 1), group_start)
